@@ -66,6 +66,7 @@ static const item_t ITEMS[] = {
     { { "--count=7" }, E_INT, 1, "7", 0, 0, 0 },                { { "--count", "8" }, E_INT, 1, "8", 0, 0, 0 },
     { { "-fX" }, E_STR, 0, "X", 0, 0, 0 },                      { { "-f", "Y" }, E_STR, 0, "Y", 0, 0, 0 },
     { { "--file=x y" }, E_STR, 0, "x y", 0, 0, 0 },             { { "--file", "Z" }, E_STR, 0, "Z", 0, 0, 0 },
+    { { "--file=a=b" }, E_STR, 0, "a=b", 0, 0, 0 },             /* the value starts after the FIRST '=' */
     { { "--file=" }, E_STR, 0, "", 0, 0, 0 },                   { { "-d", ":0" }, E_STR, 1, ":0", 0, 0, 0 },
     { { "--display=:1" }, E_STR, 1, ":1", 0, 0, 0 },
     { { "-t", "T1" }, E_ABST, 0, "T1", 0, 0, 0 },               { { "-tT2" }, E_ABST, 0, "T2", 0, 0, 0 },
@@ -408,6 +409,35 @@ static void d_case(uint64_t idx, void *ctx)
     mc_outcome(idx * 3 + (uint64_t) assigned);
 }
 
+/* ---- argument lists of very many words (counts around 255/256 and 65535/65536): the list is the rest of the line, every word of it */
+static const long LONGL[] = { 255, 256, 257, 65535, 65536, 65537, 70000 };
+#define NLONGL ((int) (sizeof LONGL / sizeof LONGL[0]))
+static void e_desc(uint64_t idx, void *ctx, char *b, size_t n) { (void) ctx; snprintf(b, n, "prog [-a] [-e] followed by %ld words%s", LONGL[idx / 3], idx % 3 == 1 ? ", with remove-args" : (idx % 3 == 2 ? ", with remove-args, the list option belonging to the pre-parse pass" : "")); }
+static void e_case(uint64_t idx, void *ctx)
+{
+    long n = LONGL[idx / 3]; int rm = (int) (idx % 3) >= 1, other = (int) (idx % 3) == 2; (void) ctx;
+    const char *shape = n < 65536 ? "list of fewer than 65536 words" : "list of 65536 or more words"; mc_set_shape(shape);
+    g_rot = 0; g_exec_pp = other; table();
+    T.g0 = T.g1 = T.g2 = T.g3 = T.g4 = T.g5 = GUARD; T.gi1 = T.gi2 = 0x5a5a5a5a; T.flags = NOBODY; T.num = 0; T.count = 0; T.file = NULL; T.display = NULL; T.exec = NULL;
+    int ac = (int) n + 3; char **argv = malloc(sizeof(char *) * (size_t) (ac + 1)); char *w = mc_heapstr("w"), *last = mc_heapstr("last");
+    argv[0] = "prog"; argv[1] = "-a"; argv[2] = "-e"; for (long i = 0; i < n; i++) argv[3 + i] = i == n - 1 ? last : w; argv[ac] = NULL;
+    SPIFOPT_OPTLIST_SET(OPTS); SPIFOPT_NUMOPTS_SET(NOPT); SPIFOPT_ALLOWBAD_SET(9); SPIFOPT_BADOPTS_SET(0); SPIFOPT_HELPHANDLER_SET(help_stub);
+    spifopt_settings.flags = rm ? SPIFOPT_SETTING_REMOVE_ARGS : 0;
+    g_diag = 0;
+    spifopt_parse(ac, argv);
+    long got = 0; if (T.exec) while (T.exec[got] && got <= n + 2) got++;
+    if (other) { if (T.exec) FAIL("spifopt_parse", "model:assigned-in-the-other-pass", shape, "a pre-parse list option was assigned in the normal pass"); }
+    else if (got != n) FAIL("spifopt_parse", "model:arglist", shape, "-e followed by %ld words: the list holds %ld", n, got);
+    else if (strcmp(T.exec[0], "w") || strcmp(T.exec[n - 1], "last")) FAIL("spifopt_parse", "model:arglist", shape, "first or last word of the list is wrong");
+    if (T.flags != (NOBODY | 0x01)) FAIL("spifopt_parse", "model:boolean-bits", shape, "flags 0x%lx after [-a]", T.flags);
+    if (rm && (argv[1] != NULL)) FAIL("spifopt_parse", "model:argv-after-removal", shape, "argv[1] is \"%s\" after a line that consists of options only", argv[1]);
+    if (SPIFOPT_BADOPTS_GET()) FAIL("spifopt_parse", "model:bad-option-on-wellformed-line", shape, "%u bad options", (unsigned) SPIFOPT_BADOPTS_GET());
+    if (T.g0 != GUARD || T.g1 != GUARD || T.g2 != GUARD || T.g3 != GUARD || T.g4 != GUARD || T.g5 != GUARD) FAIL("spifopt_parse", "invariant:guard-word-overwritten", shape, "a guard word next to an option variable changed");
+    if (T.exec) { for (long i = 0; i < got; i++) FREE(T.exec[i]); FREE(T.exec); T.exec = NULL; }
+    free(argv); free(w); free(last);
+    mc_nontrivial();
+    mc_outcome((uint64_t) got);
+}
 int main(int argc, char **argv)
 {
     mc_init("C08", argc, argv);
@@ -421,5 +451,6 @@ int main(int argc, char **argv)
     for (g_k = 0; g_k <= N; g_k++) if (!mc_e2_level("hostile", g_k, mc_words_of_len(NTOK, g_k) * 4, b_case, b_desc, NULL)) break;
     mc_e2_level("bundles", 1, (uint64_t) NBUN * 8, c_case, c_desc, NULL);
     mc_e2_level("constructors", 1, 20 * 4 + 6 + 8, d_case, d_desc, NULL);
+    mc_e2_level("long_argument_lists", 70000, (uint64_t) NLONGL * 3, e_case, e_desc, NULL);
     return mc_finish();
 }
